@@ -206,6 +206,40 @@ def w_ledger(exe, pool, extra):
     return part
 
 
+def w_size_ladder(exe, extra):
+    """One object validating addresses of very different sizes in every order of (long, short, longer / shorter): memory an object keeps
+    between calls (a private copy, a scratch buffer) has to be sized for each call anew - ASan watches the block bounds."""
+    part = new_part()
+    mdl = _model.Model()
+    sizes = [6, 300, 5000, 33000, 40000, 66000, 70000, 131000, 140000, 262200]
+    pool = []
+    for n in sizes:
+        pool += [b"x" * max(1, n - 5) + b"@a.bc", b"u@" + (b"ab." * (n // 3 + 1))[:max(1, n - 6)] + b".com", ("\u00e9" * (n // 2)).encode() + b"@a.bc"]
+    progs = []
+    k = len(sizes)
+    for m in (0, 3):
+        for v in range(3):
+            for i in range(k):
+                for j in range(k):
+                    if i == j:
+                        continue
+                    for s_ in (0, 1):
+                        progs.append(["r%d" % m, "s", "t%d" % (v & 1), "e%d" % (3 * i + v), "e%d" % (3 * s_ + v), "e%d" % (3 * j + v), "e%d" % (3 * s_ + (v + 1) % 3),
+                                      "e%d" % (3 * i + v), "f", "r%d" % m, "s", "e%d" % (3 * j + v), "e%d" % (3 * i + v)])
+    traces, crashes = HM.run_histories(exe, pool, progs)
+    for idx, sig, err in crashes:
+        part["viol"].append(("size-ladder/crash/%s" % sig, {"history": " ".join(progs[idx]) if 0 <= idx < len(progs) else "exit",
+                                                            "sizes": sizes}, {"stderr": err[-1500:]}))
+    for prog, tr in zip(progs, traces):
+        if tr is None:
+            continue
+        HM.check_trace(prog, tr, mdl, part, extra=extra, src="size-ladder")
+    part["viol"] = [("size-ladder/" + v[0] if not v[0].startswith("size-ladder") else v[0],) + tuple(v[1:]) for v in part["viol"]]
+    part["counters"]["size-ladder.histories"] += len(progs)
+    part["distinct"] = len(progs)
+    return part
+
+
 def w_cost(exe, entry, family, sizes, tmpdir):
     part = new_part()
     irs = []
@@ -332,6 +366,8 @@ def main(tier, seed):
     pool = [a for a in corpus if len(a) < 300][seed % 11::11][:400]
     jobs.append((w_ledger, (hist, pool, False)))
     jobs.append((w_ledger, (histx, pool, True)))
+    jobs.append((w_size_ladder, (hist, False)))
+    jobs.append((w_size_ladder, (histx, True)))
     # cost clock
     sizes = [4096, 8192, 16384, 32768] if tier == "quick" else [4096, 8192, 16384, 32768, 65536, 131072]
     for e in (ENTRIES_Q if tier == "quick" else ENTRIES_T):
